@@ -24,6 +24,7 @@ type Term struct {
 	Def      *Term       // leaf only: this symbol abbreviates Def (rendered as define-fun); see name()
 	QDef     *Term       // leaf only: Bool symbol defined as equivalent to this quantified formula (asserted as an axiom)
 	hasBound bool        // mentions a quantifier-bound variable (never abbreviated)
+	hasSk    bool        // contains the body of a skolemised quantified goal (valid in positive positions only)
 	hasQ     bool        // contains a quantifier (never abbreviated, so that "(forall " stays visible)
 	QReads   []traceRead // forall nested in another quantifier: the memory its body reads (see liftInner)
 	Pre      bool        // leaf: a reference known to be pre-existing (< alloc0), hence distinct from every allocation of this call
@@ -54,8 +55,11 @@ func finish(t *Term) *Term {
 		if a.hasQ {
 			t.hasQ = true
 		}
+		if a.hasSk {
+			t.hasSk = true
+		}
 	}
-	if t.hasBound || t.hasQ || nameThreshold <= 0 {
+	if t.hasBound || t.hasQ || t.hasSk || nameThreshold <= 0 {
 		return t
 	}
 	n := len(t.Op) + 2
